@@ -335,14 +335,14 @@ class C15(core.Check):
         opens = []
 
         def read(path):
-            # same call shape as the library: text mode, utf-8, universal newlines
+            # the referenced file's content: its bytes decoded as UTF-8, nothing else
             for f in plan:
                 if f["op"] == "open" and f.get("path", "") in path and not f.get("_done"):
                     f["_n"] += 1
                     if f["_n"] == f["k"]:
                         f["_done"] = True
                         raise OSError("injected open fault")
-            with clean.open(path, "r", encoding="utf-8") as fh:
+            with clean.open(path, "r", encoding="utf-8", newline="") as fh:  # the file's content, verbatim
                 for f in plan:
                     if f["op"] == "read" and f.get("path", "") in path and not f.get("_done"):
                         f["_n"] += 1
